@@ -9,6 +9,22 @@ CHECKS = {
    text="Bounded solver-based differential check: for each program of a stated family and each goal monomial, the closed form the real pipeline returns is compared at every n <= N with the k-step reference semantics by one z3 query over all values of parameters and initial values; sat models are replayed exactly on the real code before they count.",
    ref="DESIGN.md 3/C01", tech="symbolic-data execution of the real pipeline + z3 (QF_NRA) equivalence queries against an independent reference interpreter",
    note="Trusted: vlib/sem.py semantics, vlib/distref.py reference moments, z3. Assumed: probabilities in [0,1], admissible distribution parameters, non-zero denominators of the reported formula. Bounded: n <= N (4 quick / 6 thorough), program family of vlib/progfamily.py + corpus/ + repo benchmarks; TruncNormal, Sin/Cos/Exp and conditions on continuous draws are outside."),
+ "C04": dict(cat="other",
+   text="Bounded solver-based checking of the real recurrence solvers: for each linear system of a stated family (all Jordan patterns up to dimension 3/4 over a stated eigenvalue list, conjugated, with and without inhomogeneous part) and a fully symbolic initial vector, closed(k) = (A^k v) is decided by z3 for k <= 2d+4 for both solvers; an induction query with b^n abstracted closes all n >= n0 per component; numeric-root options are checked for the exactness flag and an envelope.",
+   ref="DESIGN.md 3/C04", tech="symbolic-data execution of AcyclicSolver/CyclicSolver + z3 QF_NRA queries (bounded k and symbolic-n induction)",
+   note="Trusted: exact A^k v by the harness's own QPoly arithmetic, z3. Bounded: dimension <= 3 (quick) / 4 (thorough), eigenvalues from the block list, k <= 2d+4; induction assumes distinct abstracted bases are independent (a sat there is only inconclusive). The numeric-root envelope is evaluated at a concrete vector."),
+ "C06": dict(cat="other",
+   text="For tuples of exponential-polynomial closed forms the real InvariantIdeal is run; each reported basis element is shown to vanish for ALL n by one z3 identity query in (n, p^n per prime, (-1)^n) for rational bases, and at n0..n0+8 exactly for other algebraic bases.",
+   ref="DESIGN.md 3/C06", tech="symbolic-data execution of InvariantIdeal + z3 identity queries under prime-power abstraction",
+   note="Trusted: algebraic independence of n and the prime powers; z3. Bounded: tuples of <= 4 closed forms from vlib/invfam.py; non-rational bases only at 9 concrete n."),
+ "C07": dict(cat="other",
+   text="Completeness of the reported basis up to degree D is one exact LRA query per tuple over ALL rational coefficient vectors: a polynomial vanishing on the sample whose normal form modulo the reported generators is non-zero; witnesses count only after an all-n identity query promotes them.",
+   ref="DESIGN.md 3/C07", tech="z3 LRA existence query over coefficient vectors + all-n identity promotion",
+   note="Trusted: sympy.groebner as calculator for normal forms inside the harness; z3. Bounded: degree <= 2 (quick) / 3 (thorough), rational bases, <= 4 goals."),
+ "C16": dict(cat="other",
+   text="For lists of rationals the returned basis is checked by three LIA queries over UNBOUNDED integer vectors (soundness of every integer combination, independence, completeness with one universal block) against the fundamental theorem of arithmetic; algebraic lists by exact NRA identities and completeness over a stated box.",
+   ref="DESIGN.md 3/C16", tech="z3 LIA with one forall block (unbounded exponent vectors); QF_NRA identities for algebraic bases",
+   note="Trusted: own trial-division factorisation, z3. Bounded: lists of length <= 3/4 over +-2^a3^b5^c and a stated algebraic alphabet; algebraic completeness only inside |e_i| <= 3/5."),
 }
 NA_REASON = "check not built yet in this session (see DESIGN.md section 3 for the planned solver-based check)"
 
